@@ -70,6 +70,10 @@ def impl(case):
             world[bad_ax][i] = np.nan
         for i, sgn in case.get("inf_at", []):
             world[bad_ax][i] = sgn * np.inf
+        for i in case.get("anti_at", []):
+            # a finite direction that has no pixel at all: the far hemisphere of a gnomonic field
+            world[0][i] = (world[0][i] + 180.0) % 360.0
+            world[1][i] = -world[1][i]
         res = {"world": [[_c(v) for v in x] for x in world]}
         kw = {}
         if case["fill"] is not None:
@@ -161,6 +165,13 @@ def oracle(case, res):
             if "in_image" in res and res["in_image"][k]:
                 out.append(("in_image_inf", "in_image is True for a world point with an infinite coordinate (box %s)" % (box,)))
             continue
+        if k in case.get("anti_at", []):
+            # no pixel position: NaN or the fill value, and not in the image
+            if got != [_c(fill)] * len(p) and not all(g == "nan" for g in got):
+                out.append(("nan", "a direction in the far hemisphere inverted to %s" % [_d(g) for g in got]))
+            if "in_image" in res and res["in_image"][k]:
+                out.append(("in_image_nan", "in_image is True for a direction in the far hemisphere"))
+            continue
         if k in case.get("nan_at", []):
             # a NaN world point has no pixel position: NaN, or the fill value when masking is on, are both accepted
             if case["path"] == "iterative" and any(g != "nan" for g in got) and not (masking and got == [_c(fill)] * len(p)):
@@ -174,7 +185,7 @@ def oracle(case, res):
             # far outside the image the distorted WCS need not be one-to-one: the only claim is that whatever is returned
             # with masking on is the fill value, NaN (no solution), or a position inside the box (another pre-image)
             if masking and got != [_c(fill)] * len(p) and not all(g == "nan" for g in got) and \
-                    not _inside(box, [C.w2f(g) for g in got]):
+                    not _inside(box, [_d(g) if g != "nan" else float("nan") for g in got]):
                 out.append(("mask", "iterative inversion (masking on) of a far-outside point returned %s, which is outside the box %s and not the fill value %r" %
                             ([_d(g) for g in got], box, fill)))
             continue
@@ -197,10 +208,10 @@ def oracle(case, res):
         modes_["numerical_inverse called directly"] = res["numinv_direct"]
     for nm_, inv_m in modes_.items():
         for k in range(npts):
-            if k in case.get("nan_at", []) or k in [i for i, _s in case.get("inf_at", [])] or not masking:
+            if k in case.get("nan_at", []) or k in case.get("anti_at", []) or k in [i for i, _s in case.get("inf_at", [])] or not masking:
                 continue
             got = [inv_m[i][k] for i in range(len(case["pix"][k]))]
-            if got != [_c(fill)] * len(got) and not all(g == "nan" for g in got) and not _inside(box, [C.w2f(g) for g in got]):
+            if got != [_c(fill)] * len(got) and not all(g == "nan" for g in got) and not _inside(box, [_d(g) if g != "nan" else float("nan") for g in got]):
                 out.append(("mask", "iterative inversion (masking on, solver mode %s) of the image of pixel %s returned %s, which is outside the box %s and not the fill value %r" %
                             (nm_, case["pix"][k], [_d(g) for g in got], box, fill)))
                 break
@@ -275,7 +286,11 @@ def stats(case, res, st):
         st["pts_outside"] += len(ins) - sum(ins)
 
 
+_ANTI = []
+
+
 def gen(rng, tier):
+    del _ANTI[:]
     q = tier == "quick"
     for _ in range(150 if q else 6000):
         dim = rng.choice([1, 2, 2])
@@ -320,9 +335,16 @@ def gen(rng, tier):
                 d = rng.uniform(0.01, 60) if rng.random() < 0.6 else rng.uniform(500, 9000)
                 pts.append({"l": [x0 - d, rng.uniform(y0, y1)], "r": [x1 + d, rng.uniform(y0, y1)],
                             "b": [rng.uniform(x0, x1), y0 - d], "t": [rng.uniform(x0, x1), y1 + d]}[side])
+        # a hair beyond an edge (a few thousandths of a pixel: far less than a relative tolerance of 1e-5 on a four-digit edge would forgive)
+        pts.append([x1 + 0.004, 0.5 * (y0 + y1)] if _ % 2 == 0 else [0.5 * (x0 + x1), y1 + 0.003])
         # far off the corners (where the fixed-point iteration diverges and the fallback solver takes over)
         for _p in range(2):
             pts.append([rng.choice([x0 - 1, x1 + 1]) + rng.choice([-1, 1]) * rng.uniform(1500, 9500), rng.choice([y0 - 1, y1 + 1]) + rng.choice([-1, 1]) * rng.uniform(1500, 9500)])
-        yield {"wcs": "sky", "path": "iterative" if distort else "analytic", "params": p, "box": p["bbox"], "pix": pts,
-               "fill": rng.choice([None, None, -1.0, 0.0, 99.5]), "withbb": rng.choice([None, None, True, False]),
-               "nan_at": [rng.randrange(6)] if rng.random() < 0.4 else [], "bad_axis": rng.randrange(2)}
+        case_ = {"wcs": "sky", "path": "iterative" if distort else "analytic", "params": p, "box": p["bbox"], "pix": pts,
+                 "fill": rng.choice([None, None, -1.0, 0.0, 99.5]), "withbb": rng.choice([None, None, True, False]),
+                 "nan_at": [rng.randrange(6)] if rng.random() < 0.4 else [], "bad_axis": rng.randrange(2)}
+        yield case_
+        if distort and len(_ANTI) < (4 if tier == "quick" else 60):
+            # the same batch with its first point sent to the far hemisphere: a point without any solution ahead of the out-of-box ones
+            _ANTI.append(1)
+            yield dict(case_, anti_at=[0], nan_at=[], withbb=None)
